@@ -6,6 +6,7 @@ import PaneModel.Model.Cache
 import PaneModel.Model.Order
 import PaneModel.Model.Pane
 import PaneModel.Lemmas.RoundTripDefs
+import PaneModel.Model.IO
 /-!
 # Line-protocol driver: one JSON scenario per input line, one JSON result per output line.
 Run with `lake env lean --run Driver.lean` (or as the compiled `driver` executable).
@@ -634,7 +635,7 @@ def runOp (sc : Scen) (j : Json) : P Json := do
   let op ← jstr (← jfield j "op")
   let E := mkExt sc.tables
   match op with
-  | "from_data" | "try_collect" | "into_data" | "roundtrip" | "render" | "build" | "convert2" =>
+  | "from_data" | "try_collect" | "into_data" | "roundtrip" | "render" | "build" | "convert2" | "io" =>
     let ty ← parseTy (← jfield j "ty")
     let H ← parseHandlers (jfieldD j "handlers" .null)
     match makeConverter sc.env H ty with
@@ -648,6 +649,20 @@ def runOp (sc : Scen) (j : Json) : P Json := do
       | "try_collect" =>
         pure (Json.mkObj [("try", outcomeValJson (tryC E c v)), ("collect", outcomeErrJson (colC E c v))])
       | "into_data" => pure (exceptJson (intoC E (dynOf sc E) c v))
+      | "io" =>
+        -- write_json / write_yaml then from_json / from_yaml: from_data of the normalised serialised form (C19_write_read)
+        match convertC E c v with
+        | .value x =>
+          match intoC E (dynOf sc E) c x with
+          | .ok d =>
+            let isPath := (jfieldD j "is_path" (.bool false)) == .bool true
+            let own := if isPath then
+                [("path_closed", Json.bool (closedAfter (Facts.ioPathBranchOpens == some true) (Facts.ioStreamBranchNullcontext == some true) .path)),
+                 ("utf8", Json.bool (Facts.ioEncodingDefault == some "utf-8"))] else []
+            pure (Json.mkObj ([("x", valJson x), ("rep", .bool (representable d)), ("x2", resultJson (convertC E c (normalise d))),
+                              ("stream_open", .bool (!(closedAfter (Facts.ioPathBranchOpens == some true) (Facts.ioStreamBranchNullcontext == some true) .stream)))] ++ own))
+          | .error e => pure (Json.mkObj [("x", valJson x), ("d_raises", .str (excName e.cls))])
+        | r => pure (resultJson r)
       | "convert2" =>
         -- convert(x, T) on a typed value x = from_data(v, T): serialise by x's own runtime type, parse as T
         match convertC E c v with
@@ -753,6 +768,33 @@ def runOp (sc : Scen) (j : Json) : P Json := do
       pure (Json.mkObj [("eq", .bool (eqOpt && Order.instEq fs Val.pyEq ia ib)),
         ("lt", ord (Order.lt fs Val.pyEq pyGt ia ib)), ("le", ord (Order.le fs Val.pyEq pyGt ia ib)),
         ("gt", ord (Order.gt' fs Val.pyEq pyGt ia ib)), ("ge", ord (Order.ge fs Val.pyEq pyGt ia ib))])
+  | "history" =>
+    let ops ← (← jarr (← jfield j "ops")).toList.mapM fun o => do
+      let k ← jstr (← jfield o "k")
+      match k with
+      | "alloc" => pure (Cache.Op.alloc (← jnat (← jfield o "s")) (← jnat (← jfield o "d")) (← jnat (← jfield o "a")))
+      | "drop" => pure (Cache.Op.drop (← jnat (← jfield o "s")))
+      | "gc" => pure Cache.Op.gc
+      | "call" => pure (Cache.Op.call (← jnat (← jfield o "s")) (← jnat (← jfield o "h")))
+      | _ => throw "bad history op"
+    let kf : Cache.KeyForm := match Facts.cacheKey with
+      | some "idOnly" => .idOnly
+      | _ => .idWithStrongRef
+    let obs := Cache.run kf Cache.Sys.init ops
+    let calls := (ops.zip obs).filterMap fun (o, r) => match o with
+      | .call _ _ => some (match r with
+          | some (d, h) => Json.arr #[.num d, .num h]
+          | none => Json.null)
+      | _ => none
+    pure (Json.mkObj [("obs", .arr calls.toArray), ("valid", .bool (Cache.ValidHist kf Cache.Sys.init ops)),
+                      ("keyForm", .str (match kf with | .idOnly => "idOnly" | .idWithStrongRef => "idWithStrongRef"))])
+  | "lru" =>
+    let maxsize ← jnat (← jfield j "maxsize")
+    let keys ← (← jarr (← jfield j "keys")).toList.mapM jnat
+    let f := fun (k : Nat) => k * 7 + 1
+    let r := Cache.lruRun f ({ maxsize := maxsize, order := [] } : Cache.Lru Nat Nat) keys
+    pure (Json.mkObj [("results", .arr (r.2.map fun (v : Nat) => (Json.num v : Json)).toArray),
+                      ("order", .arr ((Cache.lruKeys r.1).map fun (k : Nat) => (Json.num k : Json)).toArray)])
   | "into_dyn" =>
     let v ← parseVal (← jfield j "val")
     pure (exceptJson (dynOf sc E v))
